@@ -296,7 +296,77 @@ func init() {
 		return ch
 	}
 	reg("time.After", after)
-	reg("time.Tick", after)
+	// tickers and timers: the channel of a ticker can fire repeatedly (each firing takes one
+	// unit of the zzTimers budget and moves the clock to the next period); Stop disarms.
+	newTimerObj := func(e *Engine, args []Value, fn *ssa.Function, ticker bool) Value {
+		c := e.clock()
+		ch := e.newChan(1, nil)
+		ch.timer = true
+		ch.deadline = e.ctx.Add(c.last, args[0].(*smt.Term))
+		if ticker {
+			ch.period = args[0].(*smt.Term)
+			if _, ok := e.extraCtx["timers"]; !ok {
+				e.extraCtx["timers"] = 8 // a ticker needs a budget: default when the harness sets none
+			}
+		}
+		pt := fn.Signature.Results().At(0).Type().(*types.Pointer)
+		o := e.newObj(pt.Elem())
+		e.store(e.sub(o, 0), ch)
+		return Ptr{Obj: o}
+	}
+	timerChan := func(e *Engine, v Value) *ChanObj {
+		p := v.(Ptr)
+		if p.Obj == nil {
+			e.goPanicRT("invalid memory address or nil pointer dereference")
+		}
+		ch, _ := e.load(e.sub(p.Obj, 0)).(*ChanObj)
+		return ch
+	}
+	reg("time.NewTicker", func(e *Engine, args []Value, fn *ssa.Function) Value { return newTimerObj(e, args, fn, true) })
+	reg("time.NewTimer", func(e *Engine, args []Value, fn *ssa.Function) Value { return newTimerObj(e, args, fn, false) })
+	reg("time.Tick", func(e *Engine, args []Value, fn *ssa.Function) Value {
+		ch := after(e, args, fn).(*ChanObj)
+		ch.period = args[0].(*smt.Term)
+		return ch
+	})
+	reg("(*time.Ticker).Stop", func(e *Engine, args []Value, fn *ssa.Function) Value {
+		if ch := timerChan(e, args[0]); ch != nil {
+			ch.fired, ch.period = true, nil
+		}
+		return nil
+	})
+	reg("(*time.Ticker).Reset", func(e *Engine, args []Value, fn *ssa.Function) Value {
+		if ch := timerChan(e, args[0]); ch != nil {
+			ch.fired, ch.period = false, args[1].(*smt.Term)
+			ch.deadline = e.ctx.Add(e.clock().last, ch.period)
+		}
+		return nil
+	})
+	reg("(*time.Timer).Stop", func(e *Engine, args []Value, fn *ssa.Function) Value {
+		ch := timerChan(e, args[0])
+		if ch == nil {
+			return e.ctx.False
+		}
+		was := !ch.fired
+		ch.fired = true
+		if was {
+			return e.ctx.True
+		}
+		return e.ctx.False
+	})
+	reg("(*time.Timer).Reset", func(e *Engine, args []Value, fn *ssa.Function) Value {
+		ch := timerChan(e, args[0])
+		if ch == nil {
+			return e.ctx.False
+		}
+		was := !ch.fired
+		ch.fired = false
+		ch.deadline = e.ctx.Add(e.clock().last, args[1].(*smt.Term))
+		if was {
+			return e.ctx.True
+		}
+		return e.ctx.False
+	})
 	reg("(time.Time).Format", func(e *Engine, args []Value, fn *ssa.Function) Value {
 		layout := strArg(e, args[1])
 		t := e.timeNs(args[0])
